@@ -4,6 +4,7 @@ routers pick the same WebService: the longest root that is a token-prefix of the
 -/
 import Restful.Lemmas.AgreePath
 import Restful.Lemmas.OrderScore
+import Restful.Lemmas.CurlyScore
 import Restful.Lemmas.OrderJsr
 namespace Restful
 open Str
@@ -143,6 +144,17 @@ theorem wsScore_lit (ls qs : List Str) (h : ∀ l ∈ ls, litOK l = true) :
   · rw [scoreWalk_lit ls qs 0 h]
     simp
 
+theorem rootTokIsVar_lit {l : Str} (hl : litOK l = true) : Spec.rootTokIsVar l = false := by
+  rw [rootTokIsVar_eq]
+  exact Tok.hasPrefix_render_lit (s := l) (by simpa [Tok.wf] using hl)
+
+/-- the score `computeWebserviceScore` gives a literal root: no `{` token, so no expression is
+    evaluated (fix 19aa57d changes nothing on the common fragment) -/
+theorem wsScoreE_lit (E : ReEnv) (ls qs : List Str) (h : ∀ l ∈ ls, litOK l = true) :
+    wsScoreE E qs ls = if ls.isPrefixOf qs then .yes (litScore ls.length) else .no := by
+  rw [wsScoreE_of_noVar E qs ls (fun l hl => rootTokIsVar_lit (h l hl)), wsScore_lit ls qs h]
+  cases ls.isPrefixOf qs <;> rfl
+
 end Curly
 
 /-! ### RouterJSR311's match of a literal root -/
@@ -250,8 +262,8 @@ theorem root_claims {cfg : Config} (hwf : Spec.wfCommon cfg = true) (hclean : Sp
     ∃ ls ex, Spec.nonEmptyToks svc.rootPath = ls ∧ (∀ l ∈ ls, l ≠ []) ∧
       Jsr.compile svc.rootPath = some ex ∧ (∀ t ∈ ex.toks, ∃ l, t = .lit l) ∧
       ex.literalCount = (ls.map List.length).sum ∧
-      Curly.svcScore (tokenize p) svc =
-        (if ls.isPrefixOf (tokenize p) then some (Curly.litScore ls.length) else none) ∧
+      Curly.svcScoreE E (tokenize p) svc =
+        (if ls.isPrefixOf (tokenize p) then .yes (Curly.litScore ls.length) else .no) ∧
       (Jsr.dcandOf E p svc).isSome = ls.isPrefixOf (tokenize p) := by
   obtain ⟨ls, htok, hnet, hlit, ex, hex, htoks, hlc⟩ := wfCommon_root hwf hclean hsvc
   obtain ⟨r, body, rfl, hnl, hbody, hbne, hsplit⟩ := Spec.normalPath_spec hp
@@ -261,8 +273,8 @@ theorem root_claims {cfg : Config} (hwf : Spec.wfCommon cfg = true) (hclean : Sp
     rw [htoks, List.mem_map] at ht
     obtain ⟨l, _, rfl⟩ := ht
     exact ⟨l, rfl⟩
-  · rw [Curly.svcScore, htok]
-    exact Curly.wsScore_lit ls _ hlit
+  · rw [Curly.svcScoreE, htok]
+    exact Curly.wsScoreE_lit E ls _ hlit
   · have hm := Jsr.matchExpr_lits_isSome E ls r hlit hnl
     have hpre : ls.isPrefixOf (split '/' r) = ls.isPrefixOf body := by
       rcases hsplit with hs | hs
@@ -278,22 +290,32 @@ theorem root_claims {cfg : Config} (hwf : Spec.wfCommon cfg = true) (hclean : Sp
 
 /-- **C18 (A2), service selection coincides**: with literal, clean, pairwise different roots and a
     normal path, CurlyRouter's `detectWebService` and RouterJSR311's `detectDispatcher` pick the
-    same WebService, or neither finds one (and RouterJSR311 never fails to compile a root) -/
+    same WebService, or neither finds one (CurlyRouter's scoring does not panic, and RouterJSR311
+    never fails to compile a root) -/
 theorem C18_service_agrees (E : ReEnv) (cfg : Config) (hwf : Spec.wfCommon cfg = true)
     (hroots : Spec.rootsDistinct cfg = true) (hclean : Spec.rootsClean cfg = true)
     (p : Str) (hp : Spec.normalPath p = true) :
-    match Curly.detectWebService (tokenize p) cfg.services none, Jsr.detectDispatcher E cfg.services p with
-    | none, some none => True
-    | some (s, _), some (some (s', _)) => s = s'
+    match Curly.detectWebService E (tokenize p) cfg.services none, Jsr.detectDispatcher E cfg.services p with
+    | some none, some none => True
+    | some (some (s, _)), some (some (s', _)) => s = s'
     | _, _ => False := by
   have hfail : ¬ ∃ s ∈ cfg.services, Jsr.compile s.rootPath = none := by
     rintro ⟨s, hs, hc⟩
     obtain ⟨_, ex, _, _, hex, _⟩ := root_claims E hwf hclean hs hp
     rw [hex] at hc
     cases hc
-  cases h1 : Curly.detectWebService (tokenize p) cfg.services none with
+  cases h1 : Curly.detectWebService E (tokenize p) cfg.services none with
   | none =>
-    have hnone := ((Curly.detectWebService_none _ _ _).mp h1).2
+    -- no `{` token in a literal root: nothing to slice, no panic
+    exfalso
+    obtain ⟨s, hs, hpanic⟩ := (Curly.detectWebService_panic E _ _ _).mp h1
+    obtain ⟨ls, ex, _, _, _, _, _, hsc, _⟩ := root_claims E hwf hclean hs hp
+    rw [hsc] at hpanic
+    split at hpanic <;> cases hpanic
+  | some d1 =>
+  cases d1 with
+  | none =>
+    have hnone := ((Curly.detectWebService_none E _ _ _).mp h1).2
     have hj : ∀ s ∈ cfg.services, Jsr.dcandOf E p s = none := by
       intro s hs
       obtain ⟨ls, ex, _, _, _, _, _, hsc, hd⟩ := root_claims E hwf hclean hs hp
@@ -311,20 +333,17 @@ theorem C18_service_agrees (E : ReEnv) (cfg : Config) (hwf : Spec.wfCommon cfg =
     trivial
   | some x =>
     obtain ⟨s, sc⟩ := x
-    have hmem : s ∈ cfg.services := by
-      rcases Curly.detectWebService_mem _ _ none s sc h1 with h' | h'
-      · exact h'
-      · simp at h'
-    obtain ⟨hscore, hmax⟩ := Curly.detectWebService_max _ _ _ _ h1
+    have hmem : s ∈ cfg.services := Curly.detectWebService_mem_none E h1
+    obtain ⟨hscore, hmax⟩ := Curly.detectWebService_max E _ _ _ _ h1
     obtain ⟨ls, ex, hnet, hlne, hex, hallit, hlc, hsc, hd⟩ := root_claims E hwf hclean hmem hp
-    have hscore' : Curly.svcScore (tokenize p) s = some sc := hscore
+    have hscore' : Curly.svcScoreE E (tokenize p) s = .yes sc := hscore
     rw [hsc] at hscore'
     have hpre : ls.isPrefixOf (tokenize p) = true := by
       cases hpre : ls.isPrefixOf (tokenize p) with
       | true => rfl
       | false => rw [hpre] at hscore'; simp at hscore'
     rw [hpre] at hd hscore'
-    simp only [if_true, Option.some.injEq] at hscore'
+    simp only [if_true, Curly.Score.yes.injEq] at hscore'
     obtain ⟨c, hc⟩ := Option.isSome_iff_exists.mp hd
     obtain ⟨s', f', hdd⟩ := Jsr.detectDispatcher_isSome E hfail hmem hc
     rw [hdd]
